@@ -336,34 +336,52 @@ func (n *WorkflowNode) addDependencyRelation(fromNodeKey string, inputs []*Field
 }
 
 func (n *WorkflowNode) checkAndAddMappedPath(paths []FieldPath) error {
-	if v, ok := n.mappedFieldPath[""]; ok {
-		if _, ok = v.(struct{}); ok {
-			return fmt.Errorf("entire output has already been mapped for node: %s", n.key)
-		}
-	} else {
-		if len(paths) == 0 {
-			n.mappedFieldPath[""] = struct{}{}
-			return nil
-		} else {
-			n.mappedFieldPath[""] = map[string]any{}
-		}
+	if _, ok := n.mappedFieldPath[""]; !ok {
+		n.mappedFieldPath[""] = map[string]any{}
+	}
+
+	if len(paths) == 0 {
+		// no field mapping at all: the predecessor's output is mapped to the entire input
+		paths = []FieldPath{{}}
 	}
 
 	for _, targetPath := range paths {
-		m := n.mappedFieldPath[""].(map[string]any)
+		m, ok := n.mappedFieldPath[""].(map[string]any)
+		if !ok {
+			return fmt.Errorf("entire output has already been mapped for node: %s", n.key)
+		}
+
+		if len(targetPath) == 0 {
+			// mapping to the entire input conflicts with every other mapping of this node
+			if len(m) > 0 {
+				return fmt.Errorf("entire output cannot be mapped for node %s: some of its fields have already been mapped", n.key)
+			}
+			n.mappedFieldPath[""] = struct{}{}
+			continue
+		}
+
 		var traversed FieldPath
 		for i, path := range targetPath {
 			traversed = append(traversed, path)
-			if v, ok := m[path]; ok {
-				if _, ok = v.(struct{}); ok {
+			v, exist := m[path]
+			if exist {
+				if _, terminal := v.(struct{}); terminal {
+					// an already mapped path equals targetPath or is a prefix of it
 					return fmt.Errorf("two terminal field paths conflict for node %s: %v, %v", n.key, traversed, targetPath)
 				}
 			}
 
 			if i < len(targetPath)-1 {
-				m[path] = make(map[string]any)
-				m = m[path].(map[string]any)
+				if !exist {
+					v = make(map[string]any)
+					m[path] = v
+				}
+				m = v.(map[string]any)
 			} else {
+				if exist {
+					// targetPath is a prefix of an already mapped path
+					return fmt.Errorf("two terminal field paths conflict for node %s: %v is a prefix of an already mapped path", n.key, targetPath)
+				}
 				m[path] = struct{}{}
 			}
 		}
